@@ -163,6 +163,11 @@ def judgeTxParse (input : Bytes) (resp : String) : Verdict :=
   match Json.parseRaw input with
   | none => .skip     -- not JSON: covered by the correspondence only
   | some raw =>
+    -- documents with duplicate keys are left to the correspondence check
+    let dup := match raw, Json.dedup raw with
+      | .obj a, .obj b => a.length != b.length
+      | _, _ => false
+    if dup then .skip else
     match expectTx (Json.dedup raw) with
     | none => expect (resp == "err") "a document that is not an object must be refused"
     | some exps =>
